@@ -945,7 +945,7 @@ class Atoms:
                       ["%.4f" % s for s in self.positions[:,1]],
                       ["%.4f" % s for s in self.positions[:,2]],]
 
-        block.AddCifItem(([[
+        _add_cif_loop(block, ([[
                 "_atom_site_label",
                 "_atom_site_type_symbol",
                 *coords_labels,
@@ -960,7 +960,7 @@ class Atoms:
             ]]))
 
         if len(self.bonds) > 0:
-            block.AddCifItem(([[
+            _add_cif_loop(block, ([[
                     "_geom_bond_atom_site_label_1",
                     "_geom_bond_atom_site_label_2",
                     *self.extra_bond_labels,
@@ -971,7 +971,7 @@ class Atoms:
                 ]]))
 
         if len(self.angles) > 0:
-            block.AddCifItem(([[
+            _add_cif_loop(block, ([[
                     "_geom_angle_atom_site_label_1",
                     "_geom_angle_atom_site_label_2",
                     "_geom_angle_atom_site_label_3",
@@ -989,7 +989,7 @@ class Atoms:
             four_body_terms.extend(self.impropers)
             four_body_terms = np.array(four_body_terms)
 
-            block.AddCifItem(([[
+            _add_cif_loop(block, ([[
                     "_geom_torsion_atom_site_label_1",
                     "_geom_torsion_atom_site_label_2",
                     "_geom_torsion_atom_site_label_3",
@@ -1384,6 +1384,13 @@ class Atoms:
             kwargs['cell'] = self.cell
             kwargs['pbc'] = True
         return ase.Atoms(self.elements, **kwargs)
+
+def _add_cif_loop(block, names_and_values):
+    """adds one loop to a CifBlock; CifBlock.AddCifItem no longer exists in current PyCifRW versions."""
+    (names,), (values,) = names_and_values
+    for name, value in zip(names, values):
+        block[name] = list(value)
+    block.CreateLoop(list(names))
 
 def find_unchanged_atom_pairs(orig_structure, final_structure, max_delta=1e-5):
     """Returns array of tuple pairs, where each pair contains the indices in the original and the final
